@@ -440,6 +440,28 @@ _more("C18", "random_bits also for 2049, 3073, 4095, 4096, 4097, 8192, 16385 bit
 _more("C19", "TWO CHALLENGES: (s - s') / (c - c') over all pairs of different large fields and pairs of recomputable challenges of one "
       "proof must not be a secret (exact division; proofs with at most 260 large fields).")
 
+_more("C01", "Key generation is a monitored call over its valid input range (key material 32..=64 octets; key_info absent / empty / "
+      "1 / 17 / 255 / 256 / 300 / 65534 / 65535 octets).")
+_more("C03", "Size ladder around every power of two up to 512 and around the one-call expansion limits (165 / 166 / 170 / 171, 1361 / "
+      "1400 in the thorough tier); VOLUME: 8 x 300 (3000) fresh proofs of one statement generated, encoded, decoded, verified.",
+      volume_proofs_verified=1500)
+_more("C05", "'No commitment' spelled None and Some(&[]).")
+_more("C06", "Surplus disclosed messages in either list (front / end) and messages with the index list absent.")
+_more("C09", "Every whole-scalar truncation of the variable-length encodings down to nothing (a prefix that is itself a well-formed "
+      "shorter object of the same type is legitimate, everything else forbidden).")
+_more("C10", "The reference implements RFC 9380's oversize-DST rule; generator api ids of 236 / 237 / 300 / 5000 octets.")
+_more("C11", "Every generator set (16 api ids incl. 236 / 237 / 1000 octets) is compared with the reference.")
+_more("C12", "Vectors of 256 / 300 (255 / 257 / 1000) messages with updates at the far end and at positions 64, 127, 128, 253..257.")
+_more("C13", "s of every issued signature has exactly ls bits; volume 3000 (12000).")
+_more("C14", "Trusted-party keys with exactly n, more than n, and (whenever the last position is revealed) fewer than n bases; VOLUME: "
+      "200 (2000) honest issuance proofs verified as the issuer sees them.", volume_proofs_verified=150)
+_more("C15", "VOLUME: 250 (2500) honest proofs with all attributes hidden.", volume_proofs_verified=200)
+_more("C16", "Cheating prover: claimed-bound ladder in steps of 2 (tightest claim under which the sub-prover terminates), 8 attempts per target.")
+_more("C17", "Size channel on bare range proofs under SHA-256 / SHA-384 / SHA-512 (the range proof is generic over the hash).",
+      size_channel_range_proofs=40)
+_more("C18", "s and e of issued signatures have exactly ls / le bits (sign and sign_multiattr).")
+_more("C19", "Presentation proofs under commitment keys with over-long moduli (N^2, N*2^700+1).")
+
 
 def post_C07(drv, res, binary, tier, seed):
     """Cross-process part of the history: the same fixed workload in N independent processes started
